@@ -6,7 +6,7 @@ CHECKS = {
  "C01": ("TLC model-checks the SD machine (seed contract on all 2-variable networks, all query orders) and validates recorded runs of the six complete strategies: attractors recomputed by TLC from truth tables, bijection seeds<->attractors checked on every completion state; the executions of the repository's own attractor tests (published models projected onto their percolated core) are validated the same way.", "4/C01"),
  "C02": ("TLC enumerates the full hierarchy of percolated trap spaces from the truth tables and compares it (nodes, edges, motif lists, minimal nodes) with recorded full BFS/DFS runs on all 256 two-variable networks and random 3-6 variable networks; the SD model is checked exhaustively on the 2-variable networks; every public call the repository's own expansion tests make is recorded by a pytest plugin and validated by the same trace specification.", "4/C02"),
  "C03": ("Model checking of every strategy after every prefix (depth 2, limits) on all 2-variable networks + TLC validation of recorded strategy runs after random prefixes: minimal nodes = inclusion-minimal trap spaces computed by TLC.", "4/C03"),
- "C04": ("Exhaustive exploration of histories of plain expansion calls in the TLA+ model (invariant PartialFaithful in every micro-state); one history per abstract idle state is replayed in the library and every event is recomputed by TLC (structure, expansion order, return value), then a full BFS must give the full diagram.", "4/C04"),
+ "C04": ("Exhaustive exploration of histories of plain expansion calls in the TLA+ model (invariant PartialFaithful in every micro-state); one history per abstract idle state is replayed in the library and every logged state is judged by TLC (exact successors and motifs of expanded nodes, none for stubs; structure / expansion order / return value predicted by the model are reported as mechanism diagnostics), then a full BFS must give the full diagram.", "4/C04"),
  "C05": ("Model checking of skip operations x seed queries in all orders on 2-variable networks + TLC validation of partial-expansion/skip/all-seeds runs including gadget compositions up to 8 variables.", "4/C05"),
  "C08": ("Recorded node_attractor_candidates calls under the option x configuration grid on every node kind; TLC checks Covers (every own attractor hit, full states inside the node) or error-with-nothing-cached; contract-level model checked on 2-variable networks. The pipeline itself is a TLA+ state machine (Cand.tla): Candidates.tla model-checks Covers / Error / Termination for every NFVS, retained assignment, solver truncation, flip order and simulation outcome, and CandTrace.tla replays the stage events recorded inside the real pipeline through the same step functions.", "4/C08"),
  "C12": ("TLC checks set i = attractor of seed i for every recorded node_attractor_sets result under all query orders, reclamation, pickling, and the symbolic fallback forced by a tiny candidate limit; twin runs (relation 'fallback') compare the default method and the forced fallback node by node on expanded, unexpanded and skip nodes.", "4/C12"),
@@ -22,7 +22,7 @@ CHECKS = {
  "C17": ("Twin validation under variable permutation + negation + renaming + reformulated update functions + bnet/aeon/sbml: isomorphic full diagrams, same minimal trap spaces and attractor sets under the transformation (TLC), and every presentation run validated against the transformed truth tables.", "4/C17"),
  "C18": ("Disjoint unions and input-fixed networks: TLC validates library results on composed truth tables, and the 'below' twin relation checks the input-conditioned sub-diagram; published models whose percolated core has <= 10 variables are run through build() in full and judged by TLC on the core network (root percolation certified per update function); models with larger cores are listed as not covered.", "4/C18"),
  "C19": ("Twin validation with the identity relation on everything logged: the same history in fresh interpreters under different PYTHONHASHSEED values, twice in one process and after unrelated library activity.", "4/C19"),
- "C20": ("DepthExact / IndexExact / contiguous ids checked by TLC on every logged state of TLC-generated and random histories (incl. skip operations and pickling), and ids/depths/index compared with the model after every call.", "4/C20"),
+ "C20": ("DepthExact / IndexExact / contiguous ids checked by TLC on every logged state of TLC-generated and random histories (incl. skip operations and pickling), ids / depths / index predicted by the model are compared after every call as mechanism diagnostics; find_node, summary, is_subgraph and is_isomorphic answers are recomputed by TLC (QUERY clause); _ensure_edge is validated at action level from arbitrary DAG states (DepthTrace).", "4/C20"),
 }
 NOT_YET = {}
 ENGINE = {"C16": "tla-twin", "C17": "tla-twin", "C18": "tla-twin", "C19": "tla-twin", "C06": "tla-control", "C07": "tla-control", "C09": "tla-pure", "C10": "tla-pure", "C11": "tla-pure"}
